@@ -13,10 +13,8 @@ from typing import Any
 from typing import Tuple
 
 from clikit.api.io import IO
-from clikit.formatter.plain_formatter import PlainFormatter
 from clikit.utils._compat import PY2
 from clikit.utils._compat import PY36
-from clikit.utils._compat import decode
 from clikit.utils._compat import encode
 
 
@@ -81,12 +79,17 @@ class Highlighter(object):
         buffer = ""
         current_type = None
         source_io = io.BytesIO(encode(source))
-        formatter = PlainFormatter()
 
-        def readline():
-            return encode(formatter.remove_format(decode(source_io.readline())))
+        def styled(token_type, text):
+            # Code is displayed as is: a "<" in it must not start a style tag
+            text = text.replace("<", "\\<")
+            if text.endswith("\\"):
+                # A backslash directly before the closing tag would escape it
+                text += " "
 
-        tokens = tokenize.tokenize(readline)
+            return "<{}>{}</>".format(self._theme[token_type], text)
+
+        tokens = tokenize.tokenize(source_io.readline)
         line = ""
         for token_info in tokens:
             token_type, token_string, start, end, _ = token_info
@@ -98,7 +101,7 @@ class Highlighter(object):
             if token_type == tokenize.ENDMARKER:
                 # End of source
                 if current_type is not None:
-                    line += "<{}>{}</>".format(self._theme[current_type], buffer)
+                    line += styled(current_type, buffer)
 
                 lines.append(line)
                 break
@@ -108,9 +111,7 @@ class Highlighter(object):
                 if diff > 1:
                     lines += [""] * (diff - 1)
 
-                line += "<{}>{}</>".format(
-                    self._theme[current_type], buffer.rstrip("\n")
-                )
+                line += styled(current_type, buffer.rstrip("\n"))
 
                 # New line
                 lines.append(line)
@@ -143,7 +144,7 @@ class Highlighter(object):
                 buffer += token_info.line[current_col : start[1]]
 
             if current_type != new_type:
-                line += "<{}>{}</>".format(self._theme[current_type], buffer)
+                line += styled(current_type, buffer)
                 buffer = ""
                 current_type = new_type
 
@@ -152,9 +153,7 @@ class Highlighter(object):
                 lines.append(line)
                 token_lines = token_string.split("\n")
                 for token_line in token_lines[1:-1]:
-                    lines.append(
-                        "<{}>{}</>".format(self._theme[current_type], token_line)
-                    )
+                    lines.append(styled(current_type, token_line))
 
                 current_line = end[0]
                 buffer = token_lines[-1][: end[1]]
